@@ -15,14 +15,46 @@ import (
 
 func init() { subcommands["c15"] = c15; subcommands["c15conc"] = c15conc }
 
+// seqMode says which 64-bit sequence numbers a client's k-th command carries.  The trace names commands by (client, k); the
+// mappings are strictly increasing in k, so the order the cache has to go by is the order of k.
+//
+//	0: k    1: 2^63-4+k (crosses the sign bit)    2: 2^64-64+k (the top of the range)    3: k for k<=2, then 2^63+k (a jump of 2^63)
+var seqMode = 0
+
+func seqOf(k int) uint64 {
+	switch seqMode {
+	case 1:
+		return 1<<63 - 4 + uint64(k)
+	case 2:
+		return ^uint64(0) - 63 + uint64(k)
+	case 3:
+		if k > 2 {
+			return 1<<63 + uint64(k)
+		}
+	}
+	return uint64(k)
+}
+
+func kOf(seq uint64) int {
+	switch {
+	case seqMode == 1:
+		return int(seq - (1<<63 - 4))
+	case seqMode == 2:
+		return int(seq - (^uint64(0) - 63))
+	case seqMode == 3 && seq > 1<<63:
+		return int(seq - 1<<63)
+	}
+	return int(seq)
+}
+
 func cmdOf(cl, seq int) *clientpb.Command {
-	return &clientpb.Command{ClientID: uint32(cl), SequenceNumber: uint64(seq), Data: []byte{byte(cl), byte(seq)}}
+	return &clientpb.Command{ClientID: uint32(cl), SequenceNumber: seqOf(seq), Data: []byte{byte(cl), byte(seq)}}
 }
 
 func batchToAbs(b *clientpb.Batch) [][2]int {
 	out := [][2]int{}
 	for _, c := range b.GetCommands() {
-		out = append(out, [2]int{int(c.GetClientID()), int(c.GetSequenceNumber())})
+		out = append(out, [2]int{int(c.GetClientID()), kOf(c.GetSequenceNumber())})
 	}
 	return out
 }
@@ -66,7 +98,11 @@ func c15(args []string) error {
 		bs := 1 + rng.Intn(3)
 		nclients := 1 + rng.Intn(3)
 		cache := clientpb.NewCommandCache(uint32(bs))
-		o.emit(obj{"op": "new", "bs": bs})
+		seqMode = 0
+		if s%3 == 2 {
+			seqMode = 1 + rng.Intn(3)
+		}
+		o.emit(obj{"op": "new", "bs": bs, "seqmode": seqMode})
 		next := map[int]int{}
 		var handed [][][2]int
 		var added [][2]int
@@ -138,6 +174,10 @@ func c15conc(args []string) error {
 		consumers := 1 + rng.Intn(2)
 		total := k * m / bs
 		cache := clientpb.NewCommandCache(uint32(bs))
+		seqMode = 0
+		if r%4 == 3 {
+			seqMode = 1 + rng.Intn(3)
+		}
 		ctx, cancel := context.WithTimeout(context.Background(), 5*time.Second)
 		var mu sync.Mutex
 		var batches [][][2]int
